@@ -21,7 +21,7 @@ RULE = ('cases are histories of 2-6 encrypt/decrypt exchanges (PGPy->PGPy+refere
         'was decrypted by every recipient and by the other implementation; distinct = distinct (direction, recipient kinds, '
         'cipher, compression, body class) tuples sequences among non-trivial runs')
 TIERS = {"quick": {"runs": 5000, "budget_s": 90}, "thorough": {"runs": 200000, "budget_s": 1500}}
-PROBES = ('ref_ecdh_padded_to_40', 'recipients>=3', 'mixed_key_and_passphrase', 'skesk_before_pkesk', 'two_enc_subkeys_one_key', 'supplied_session_key',
+PROBES = ('decrypt_via_copy', 'ref_ecdh_padded_to_40', 'recipients>=3', 'mixed_key_and_passphrase', 'skesk_before_pkesk', 'two_enc_subkeys_one_key', 'supplied_session_key',
           'signed_then_encrypted', 'rsa_recipient', 'ecdh_nist', 'ecdh_cv25519', 'ref_sed_legacy', 'ref_partial_lengths',
           'ref_skesk_direct_key', 'ref_skesk_wrap_cipher_differs', 'ref_s2k_simple', 'ref_s2k_salted', 'body_empty', 'body_big', 'armor_hop', 'reframe_hop',
           'marker_packet', 'encrypt_refused', 'from_file')
@@ -54,6 +54,7 @@ def generate(rng, tier):
             steps.append({'id': sid, 'op': 'encrypt', 'msg': spec, 'recips': recips, 'cipher': rng.choice(encworld.CIPHERS),
                           's2k_hash': rng.choice([8, 8, 10, 9, 11, 2, 1, 3]),
                           'supplied_sk': rng.random() < 0.25, 'signed_by': rng.choice(names) if rng.random() < 0.3 else None,
+                          'via_copy': rng.random() < 0.3,
                           'perturb': rng.sample(['armor', 'reframe_old', 'reframe_5', 'marker', 'partial'], rng.choice([0, 0, 1, 2]))})
         else:
             esks = []
@@ -77,7 +78,7 @@ def generate(rng, tier):
                 for e in esks:
                     e['direct'] = False
             steps.append({'id': sid, 'op': 'ref_encrypt', 'msg': spec, 'esks': esks, 'cipher': rng.choice(encworld.CIPHERS + [1]),
-                          'container': rng.choice(['seipd', 'seipd', 'seipd', 'sed']),
+                          'container': rng.choice(['seipd', 'seipd', 'seipd', 'sed']), 'via_copy': rng.random() < 0.3,
                           'framing': rng.choice(['new', 'new', 'old', 'partial']), 'perturb': rng.sample(['armor', 'marker'], rng.choice([0, 0, 1]))})
     return {'config': {'recipients': rcfg, 's2k_count': rng.choice([0, 16, 16, 96] if tier == 'quick' else [0, 16, 96, 255]),
                        'start_us': 1_600_000_000_000_000}, 'steps': steps}
@@ -253,7 +254,11 @@ def _encrypt_step(pgpy, R, step, recips, ctx, shapes):
         ctx.checked()
         try:
             m = pgpy.PGPMessage.from_blob(wire)
-            dec = R.keys[who].decrypt(m) if kind == 'key' else m.decrypt(who)
+            if step.get('via_copy'):
+                # the recipient works on a copy of the parsed message (and of the key): the same message
+                m = copy.copy(m)
+                ctx.probe('decrypt_via_copy')
+            dec = (copy.copy(R.keys[who]) if step.get('via_copy') else R.keys[who]).decrypt(m) if kind == 'key' else m.decrypt(who)
             dec_bytes = bytes(dec)
         except Exception as e:
             ctx.viol('C03:recipient-cannot-decrypt:%s:%s' % (kind, type(e).__name__),
@@ -367,7 +372,10 @@ def _ref_encrypt_step(pgpy, R, step, ctx, shapes):
         ctx.checked()
         try:
             m = pgpy.PGPMessage.from_blob(wire)
-            dec = R.keys[e['key']].decrypt(m) if kind == 'key' else m.decrypt(e['pass'])
+            if step.get('via_copy'):
+                m = copy.copy(m)
+                ctx.probe('decrypt_via_copy')
+            dec = (copy.copy(R.keys[e['key']]) if step.get('via_copy') else R.keys[e['key']]).decrypt(m) if kind == 'key' else m.decrypt(e['pass'])
             dec_bytes = bytes(dec)
         except Exception as ex:
             if kind == 'key' and R.keys[e['key']].key_algorithm not in (1, 18) and not any(int(s.key_algorithm) in (1, 18) for s in R.keys[e['key']].subkeys.values()):
